@@ -95,6 +95,124 @@ theorem reach_sinv (sk : Skeleton) (ok : StOk sk) {inp0 : List (Option Envelope)
   | init => exact sinv_init inp0
   | step a _ hs ih => exact sinv_step sk ok inp0 a ih hs
 
+/-! ### once the decoder goroutine has left, the readers have been told
+
+  Needs, beside `StOk`, that the abort arm of the hand-off selects signals (`stAbortClosesDone`) —
+  if there is such an arm at all (`stHandoffGuarded`):
+  `dec = .done` is entered by `decFinish` (second effect of the error path: the close, the error
+  having been recorded by `decRead`) and by `decAbort sk.stAbortClosesDone`.  (The converse
+  direction, `decodeDone = true → dec = .done ∧ decodeErr ≠ none`, is `SInv.closed_dec`.) -/
+
+/-- the property as a state predicate -/
+def DoneSignalled (s : State) : Prop :=
+  s.dec = .done → s.decodeDone = true ∧ s.decodeErr ≠ none
+
+theorem closeDone_decodeDone (s : State) : (closeDone s).decodeDone = true := by
+  unfold closeDone; split
+  · next h => exact h
+  · rfl
+
+theorem closeDone_decodeErr (s : State) : (closeDone s).decodeErr = s.decodeErr := by
+  unfold closeDone; split <;> rfl
+
+theorem done_signalled_init (inp0 : List (Option Envelope)) : DoneSignalled (init inp0) := by
+  intro h; cases h
+
+/-- the decoder's own steps: those that can enter `done` (none of them starts from `done`, so the
+    predicate is not needed for the state before) -/
+theorem done_signalled_step_dec (sk : Skeleton) (ok : StOk sk)
+    (hab : sk.stHandoffGuarded = true → sk.stAbortClosesDone = true)
+    {inp0 : List (Option Envelope)} (a : Act) (ha : a.ofDecoder = true)
+    {s s' : State} (hi : SInv inp0 s) (hs : step sk s a = some s') :
+    DoneSignalled s' := by
+  obtain ⟨h1, h2, h3, h4⟩ := ok
+  have hf := hi.failing
+  unfold DoneSignalled
+  cases a <;> simp [Act.ofDecoder] at ha <;> simp only [step] at hs
+  case decRead =>
+    split at hs
+    · next hc =>
+      split at hs
+      · simp at hs
+      · simp at hs; subst hs
+        intro hdone
+        simp only [afterDecode] at hdone
+        split at hdone <;> cases hdone
+      · simp at hs; subst hs   -- (`split` has used `h3`)
+        intro hdone; cases hdone
+    · simp at hs
+  case decFinish =>
+    split at hs
+    · split at hs
+      · next k hk =>
+        simp at hs; subst hs
+        intro _
+        refine ⟨closeDone_decodeDone _, ?_⟩
+        rw [closeDone_decodeErr]
+        show s.decodeErr ≠ none
+        rw [(hf k hk).1]; simp
+      · simp at hs
+    · simp at hs
+  case handReq =>
+    (repeat' split at hs) <;> (try simp at hs) <;> (try subst hs) <;> intro hdone <;> cases hdone
+  case handRes =>
+    (repeat' split at hs) <;> (try simp at hs) <;> (try subst hs) <;> intro hdone <;> cases hdone
+  case decAbort signal =>
+    split at hs
+    · next hc =>
+      have hsig : signal = true := by rw [hc.2.2.2, hab hc.2.1]
+      subst hsig
+      split at hs <;> simp at hs <;> subst hs <;> intro _ <;>
+        simp only [abortWith, if_true] <;>
+        exact ⟨closeDone_decodeDone _, by rw [closeDone_decodeErr]; simp⟩
+    · simp at hs
+
+/-- the other steps touch neither `dec` nor `decodeDone` nor `decodeErr` -/
+theorem done_signalled_step_env (sk : Skeleton) (a : Act) (ha : a.ofDecoder = false)
+    {s s' : State} (hd : DoneSignalled s) (hs : step sk s a = some s') : DoneSignalled s' := by
+  unfold DoneSignalled at hd ⊢
+  cases a <;> simp [Act.ofDecoder] at ha <;> simp only [step] at hs <;>
+    split at hs <;> simp at hs <;> subst hs <;> exact hd
+
+theorem done_signalled_step (sk : Skeleton) (ok : StOk sk)
+    (hab : sk.stHandoffGuarded = true → sk.stAbortClosesDone = true)
+    {inp0 : List (Option Envelope)} (a : Act)
+    {s s' : State} (hi : SInv inp0 s) (hd : DoneSignalled s) (hs : step sk s a = some s') :
+    DoneSignalled s' := by
+  cases ha : a.ofDecoder with
+  | true => exact done_signalled_step_dec sk ok hab a ha hi hs
+  | false => exact done_signalled_step_env sk a ha hd hs
+
+theorem reach_done_signalled (sk : Skeleton) (ok : StOk sk)
+    (hab : sk.stHandoffGuarded = true → sk.stAbortClosesDone = true)
+    {inp0 : List (Option Envelope)} {s : State} (h : Reach sk inp0 s) : DoneSignalled s := by
+  induction h with
+  | init => exact done_signalled_init inp0
+  | step a hr hs ih => exact done_signalled_step sk ok hab a (reach_sinv sk ok hr) ih hs
+
+/-- **Invariant.**  Whenever the decoder goroutine is done, the readers have been told: `decodeDone`
+    is closed and `decodeErr` holds the reason. -/
+theorem done_signalled (sk : Skeleton) (ok : StOk sk) (hab : sk.stAbortClosesDone = true)
+    {inp0 : List (Option Envelope)} {s : State} (h : Reach sk inp0 s) (hd : s.dec = .done) :
+    s.decodeDone = true ∧ s.decodeErr ≠ none :=
+  reach_done_signalled sk ok (fun _ => hab) h hd
+
+/-- with `SInv.closed_dec`: in a reachable state the decoder is done iff `decodeDone` is closed -/
+theorem done_iff_closed (sk : Skeleton) (ok : StOk sk) (hab : sk.stAbortClosesDone = true)
+    {inp0 : List (Option Envelope)} {s : State} (h : Reach sk inp0 s) :
+    s.dec = .done ↔ s.decodeDone = true :=
+  ⟨fun hd => (done_signalled sk ok hab h hd).1, fun hc => ((reach_sinv sk ok h).closed_dec hc).1⟩
+
+/-- a reader parked in its adapter can leave once the decoder is done (`stReadersSelectDone`) -/
+theorem readers_can_leave (sk : Skeleton) (ok : StOk sk) (hab : sk.stAbortClosesDone = true)
+    (hsel : sk.stReadersSelectDone = true)
+    {inp0 : List (Option Envelope)} {s : State} (h : Reach sk inp0 s) (hd : s.dec = .done) :
+    (s.reqRd = .waiting → (step sk s .readDoneReq).isSome = true) ∧
+    (s.resRd = .waiting → (step sk s .readDoneRes).isSome = true) := by
+  have hc := (reach_sinv sk ok h).nocrash
+  have hdd := (done_signalled sk ok hab h hd).1
+  constructor <;> intro hw <;> simp [step, hc, hw, hdd, hsel]
+
 /-! ### consequences of the invariant, in the form the property theorems use -/
 
 /-- each read adapter has returned a prefix of the members a message transport would deliver -/
@@ -223,25 +341,34 @@ theorem leads_trans (sk : Skeleton) {s : State} {Q P : State → Prop}
   obtain ⟨bs, s2, hr2, hp⟩ := h2 s1 hq
   exact ⟨as ++ bs, s2, run_append sk as bs hr1 hr2, hp⟩
 
+theorem closeDone_dec (s : State) : (closeDone s).dec = s.dec := by
+  unfold closeDone; split <;> rfl
+
+theorem abortWith_dec (c : Bool) (s : State) : (abortWith c s).dec = s.dec := by
+  unfold abortWith; split
+  · exact closeDone_dec _
+  · rfl
+
 /-- the decoder is not past the close, and either it can always leave a hand-off (guarded and
     the link context is done) or both readers are there to take what it hands over -/
 def Ready (sk : Skeleton) (s : State) : Prop :=
   s.crashed = false ∧ s.decodeDone = false ∧
   ((sk.stHandoffGuarded = true ∧ s.linkCtxDone = true) ∨ (s.reqRd = .waiting ∧ s.resRd = .waiting))
 
-/-- from a hand-off state the decoder gets done (abort) or back to `reading` with the same input -/
+/-- from a hand-off state the decoder gets done (abort, in the one form the source has:
+    `decAbort sk.stAbortClosesDone`) or back to `reading` with the same input -/
 theorem hand_progress (sk : Skeleton) {s : State} (hR : Ready sk s)
     (hd : (∃ p n, s.dec = .handReq p n) ∨ (∃ q, s.dec = .handRes q)) :
     Leads sk s (fun s' => s'.dec = .done ∨ (s'.dec = .reading ∧ s'.inp = s.inp ∧ Ready sk s')) := by
   obtain ⟨hc, hdd, hcase⟩ := hR
   rcases hcase with ⟨hg, hx⟩ | ⟨hw1, hw2⟩
   · rcases hd with ⟨p, n, hd⟩ | ⟨q, hd⟩
-    · refine leads_step sk (.decAbort true)
-        (s1 := { s with dec := .done, lostReq := [p], lostRes := n.toList, decodeErr := some .ctx, decodeDone := true })
-        (by simp [step, hc, hg, hx, hd, abortWith, closeDone, hdd]) (leads_refl sk (Or.inl rfl))
-    · refine leads_step sk (.decAbort true)
-        (s1 := { s with dec := .done, lostRes := [q], decodeErr := some .ctx, decodeDone := true })
-        (by simp [step, hc, hg, hx, hd, abortWith, closeDone, hdd]) (leads_refl sk (Or.inl rfl))
+    · refine leads_step sk (.decAbort sk.stAbortClosesDone)
+        (s1 := abortWith sk.stAbortClosesDone { s with dec := .done, lostReq := [p], lostRes := n.toList })
+        (by simp [step, hc, hg, hx, hd]) (leads_refl sk (Or.inl (abortWith_dec _ _)))
+    · refine leads_step sk (.decAbort sk.stAbortClosesDone)
+        (s1 := abortWith sk.stAbortClosesDone { s with dec := .done, lostRes := [q] })
+        (by simp [step, hc, hg, hx, hd]) (leads_refl sk (Or.inl (abortWith_dec _ _)))
   · have hres : ∀ (s1 : State) (q : Payload), s1.crashed = false → s1.decodeDone = false →
         s1.reqRd = .waiting → s1.resRd = .waiting → s1.dec = .handRes q → s1.inp = s.inp →
         Leads sk s1 (fun s' => s'.dec = .done ∨ (s'.dec = .reading ∧ s'.inp = s.inp ∧ Ready sk s')) := by
